@@ -23,12 +23,14 @@ int vsim_peek_dtls_appdata_exch(const struct ssl *ssl);
 int vsim_peek_session_id(const struct ssl *ssl, unsigned char *out, int max);
 int vsim_peek_master_secret_digest(const struct ssl *ssl, unsigned long long *out);
 int vsim_peek_ems(const struct ssl *ssl);
+int vsim_peek_master_secret(const struct ssl *ssl, unsigned char out[48]);
 int vsim_load_tls13_psk(struct sslKeys *keys, const unsigned char *key, int keyLen, const unsigned char *id, int idLen,
     int maxEarly, int cipherId);
 int vsim_sid_info(const struct sslSessionId *sid, int *idLen, int *ticketLen, int *hasPsk, unsigned int *cipherId);
 unsigned char *vsim_sid_id_bytes(struct sslSessionId *sid);
 void vsim_sid_set_idlen(struct sslSessionId *sid, int n);
 unsigned char *vsim_sid_master(struct sslSessionId *sid);
+void vsim_sid_set_cipher(struct sslSessionId *sid, unsigned int cipherId);
 unsigned char *vsim_sid_ticket(struct sslSessionId *sid, int *len);
 void vsim_sid_set_ticket_len(struct sslSessionId *sid, int n);
 unsigned char *vsim_sid_psk_id(struct sslSessionId *sid, int *len);
